@@ -94,7 +94,7 @@ def canon_value(v, src):
 def val_term(c):
     k = c[0]
     if k == "text":
-        return gal.app("VText", gal.s(c[1]))
+        return gal.app("VText", text_term(c[1]))
     if k == "int":
         return gal.app("VInt", gal.z(c[1]))
     if k == "float":
@@ -177,20 +177,47 @@ def names_in(text):
 
 
 # ---------------------------------------------------------------- Gallina printing
+def blocks(text):
+    """[(block, count)]: greedy factorisation into repeated blocks of <= 8 code points;
+    unrepeated stretches become one block with count 1."""
+    out, lit, i, n = [], [], 0, len(text)
+
+    def flush():
+        if lit:
+            out.append(("".join(lit), 1))
+            del lit[:]
+
+    while i < n:
+        best = None
+        for k in range(1, 9):
+            if i + 2 * k > n:
+                break
+            b = text[i:i + k]
+            r = 1
+            while text.startswith(b, i + r * k):
+                r += 1
+            if r * k >= 24 and (best is None or r * k > best[0] * best[1]):
+                best = (k, r)
+        if best:
+            flush()
+            k, r = best
+            out.append((text[i:i + k], r))
+            i += k * r
+        else:
+            lit.append(text[i])
+            if len(lit) >= 250:
+                flush()
+            i += 1
+    flush()
+    return out
+
+
 def text_term(text):
-    """Code-point list; run-length coded when long."""
+    """Code-point list; block-coded when long."""
     if len(text) <= 300:
         return gal.s(text)
-    runs, i, n = [], 0, len(text)
-    while i < n:
-        j = i
-        while j < n and text[j] == text[i]:
-            j += 1
-        runs.append((ord(text[i]), j - i))
-        i = j
-    if len(runs) > 2000:
-        return gal.s(text)
-    return "(unrle [%s]%%Z)" % "; ".join("(%d, %d)" % r for r in runs)
+    bl = blocks(text)
+    return "(unblocks [%s])" % "; ".join("(%s, %d%%Z)" % (gal.s(b), r) for b, r in bl)
 
 
 def names_term(names):
@@ -208,17 +235,10 @@ def compress(text):
     """JSON-friendly form of a possibly huge text (for replay files)."""
     if len(text) <= 2000:
         return {"text": [ord(c) for c in text]}
-    runs, i, n = [], 0, len(text)
-    while i < n:
-        j = i
-        while j < n and text[j] == text[i]:
-            j += 1
-        runs.append([ord(text[i]), j - i])
-        i = j
-    return {"rle": runs}
+    return {"blocks": [[[ord(c) for c in b], r] for b, r in blocks(text)]}
 
 
 def decompress(d):
     if "text" in d:
         return "".join(chr(c) for c in d["text"])
-    return "".join(chr(c) * n for c, n in d["rle"])
+    return "".join("".join(chr(c) for c in b) * r for b, r in d["blocks"])
